@@ -306,8 +306,13 @@ CHECKS["C02"] = {
     "parts": [
         {"name": "durability", "pkg": ROOT, "test": "TestVerifC02", "kind": "rapid",
          "checks_quick": 16, "checks_thorough": 120, "shards_quick": 14, "shards_thorough": 16, "timeout_quick": 400, "timeout_thorough": 2400},
+        {"name": "stepped", "pkg": ROOT, "test": "TestVerifC02Stepped", "kind": "rapid",
+         "checks_quick": 8, "checks_thorough": 150, "shards_quick": 8, "shards_thorough": 16, "timeout_quick": 400, "timeout_thorough": 2400},
     ],
 }
+CHECKS["C02"]["level_text"] += (" Part stepped: the same promise for plain Put and Delete issued after a stop, on members whose routing push and balancer only run when the harness says so - the table is pushed, nothing moves - so that a Delete "
+                                "that does not reach a copy is told from the recorded finding (a Delete that meets a fragment in flight): after the stop an acknowledged Delete must leave no copy on any survivor and read not-found everywhere, an acknowledged Put must be read everywhere.")
+CHECKS["C02"]["rule"] += "; part stepped: non-trivial = a key of which the stopped member held a copy is deleted after the stop"
 
 CHECKS["C03"] = {
     "level": "fault_enumeration",
